@@ -155,9 +155,10 @@ def replay_state(chk, st, cplx, names, counter):
                                           'correlogram (rectangular, lag N-1, biased, NFFT=%d) differs from the periodogram: %s' % (nfft, bad),
                                           dict(case, expect=two, observed=res))
         # 2-D input: column-wise, one shared window
-        # (also a single column, and records of one sample: a 1 x 3 matrix is three records of length 1)
-        if (N >= 2 and counter[0] % 3 == 0) or N == 1:
-            cols = [y, y[::-1].copy(), 2 * y][:1 if (N >= 2 and counter[0] % 6 == 3) else 3]
+        # (also a single column.  A 1 x C matrix is NOT used: the code treats it as C records of one sample, its docstring
+        # speaks of rows - no property pins that convention)
+        if N >= 2 and counter[0] % 3 == 0:
+            cols = [y, y[::-1].copy(), 2 * y][:1 if counter[0] % 6 == 3 else 3]
             nfft = nf[0]
             xs2 = [data_for(cy, w) for cy in cols]
             if any(v is None for v in xs2):
@@ -181,7 +182,8 @@ def replay_state(chk, st, cplx, names, counter):
                     e = eval_lags(cc, nfft)
                     expcols.append(e if cplx else e[:onelen(nfft)])
                 E = np.array(expcols).T
-                bad = cmp_vec(res, E, tol=1e-7, name='psd-2d')
+                # (a single column may come back with or without its unit axis)
+                bad = cmp_vec(np.squeeze(res) if len(cols) == 1 else res, np.squeeze(E) if len(cols) == 1 else E, tol=1e-7, name='psd-2d')
                 if bad:
                     chk.violation('C01:speriodogram-2d:%s:values' % mode,
                                   'speriodogram on a %dx%d matrix (window=%s, NFFT=%d) is not column-wise: %s' % (N, len(cols), name, nfft, bad),
